@@ -232,6 +232,7 @@ fn one_case(rng: &mut Rng, sink: &mut Sink, script: Option<&[(u8, u64)]>) {
                 cons.commit(l as usize, fl);
                 let (c, q) = cons_fields(&cons);
                 if c > c0 { sink.monitor_fail("commit_increased_credit", "Constraints::commit increased the credit limit"); }
+                if c != c0.saturating_sub(l as u128) { sink.monitor_fail("commit_credit_not_consumed", &format!("Constraints::commit({}, {}) left credit {} -> {}: every written byte counts against the anti-amplification credit", l, fl, c0, c)); }
                 sink.branch("commit");
                 sink.line(&format!("commit {} {}", l, fl as u8), &format!("credit={} quota={} avail={}", c, q, cons.is_available() as u8));
             }
